@@ -8,7 +8,7 @@ Overview: Provides functions for detecting various ignore directive markers in c
     next-line ignores. Works with both Python (#) and JavaScript (//) comment styles.
     All checks are case-insensitive.
 
-Dependencies: None (pure string operations)
+Dependencies: re (one pattern for the bare same-line form)
 
 Exports: Marker detection functions for various ignore directive types
 
@@ -16,6 +16,35 @@ Interfaces: has_*_marker(line) -> bool for each marker type
 
 Implementation: String-based pattern detection with case-insensitive matching
 """
+
+import re
+
+_BARE_LINE_IGNORE = re.compile(
+    r"(?:#|//)\s*(?:thailint|design-lint):\s*ignore(?![\w\[-])\s*(?:$|[^\w\s\[])", re.IGNORECASE
+)
+_BARE_FILE_IGNORE = re.compile(
+    r"(?:#|//)\s*(?:thailint|design-lint):\s*ignore-file(?![\w\[-])\s*(?:$|[^\w\s\[])", re.IGNORECASE
+)
+
+
+def has_bare_file_ignore(line: str) -> bool:
+    """Check if line has an ignore-file directive that names no rule (see has_bare_line_ignore)."""
+    return _BARE_FILE_IGNORE.search(line) is not None
+
+
+def has_bare_line_ignore(line: str) -> bool:
+    """Check if line has a same-line ignore that names no rule.
+
+    `# thailint: ignore` (optionally followed by punctuation and a reason) is bare;
+    `ignore[rule]`, `ignore rule`, `ignore-next-line`, `ignore-file`, `ignore-start` are not.
+
+    Args:
+        line: Line of code to check
+
+    Returns:
+        True if the line carries a bare ignore directive
+    """
+    return _BARE_LINE_IGNORE.search(line) is not None
 
 
 def has_ignore_directive_marker(line: str) -> bool:
